@@ -360,7 +360,8 @@ class kLeastAbsErrors(pathmodel.AbstractPathModelDAG):
             self.edge_indexes_basic,
             name_prefix="ee",
             lb=0,
-            ub=self.w_max,
+            # (the given weights are not chosen by the model: paths sharing an edge can put the sum of all of them on it)
+            ub=max(self.w_max, sum(self.solution_weights_superset)),
             var_type="integer" if self.weight_type == int else "continuous",
         )
 
